@@ -33,7 +33,7 @@ func VerifNewInformerC08(client *klient.Client, mstor metric.Storage, cfg *Monit
 }
 
 // CreateSharedInformer discovers the GVR and loads the existing objects into the cache.
-func (v *VerifInformerC08) CreateSharedInformer() error { return v.ei.createSharedInformer() }
+func (v *VerifInformerC08) CreateSharedInformer() error { return v.ei.createSharedInformer(true) }
 
 // Start registers the informer as handler of a real shared informer on the client.
 func (v *VerifInformerC08) Start(ctx context.Context) {
